@@ -41,7 +41,9 @@ def canonical_of(cid, res):
 def oracle(q, a):
     t = q.split()
     op = t[0]
-    if a in ("panic", "abort", "hang", "lost"):
+    if a == "lost":
+        return None        # not run: the stream was cut short after several hangs (each of which is reported)
+    if a in ("panic", "abort", "hang"):
         return f"{op} did not return normally: {a}"
     if a == "bad-op":
         return None
